@@ -41,6 +41,11 @@ def run(tier):
     if rej:
         rej["trace"] = tr
         ck.fail("trace rejected by Stream.tla", rej)
+    # 5. the object API as a user holds it (constructors choose the header; every container), both directions vs libsodium
+    for cfg in ["stable", "nightly"]:
+        sp = os.path.join(wd, "session_%s.json" % cfg)
+        conform(cfg, ["stream-session", sp, ck.seed, 200 if thorough else 40, 60])
+        ck.add_report(json.load(open(sp)), prefix="[%s] " % cfg if cfg != "stable" else "")
     ck.cov["traces_validated_against_impl"] = ntr
     ck.cov["trace_events"] = nev
     ck.cov["evaluations"] += nev
